@@ -319,10 +319,51 @@ func ruleSeries(c *Ctx) {
 				if !ok || first >= 0 {
 					return true
 				}
-				// Horner: k runs down from N-1 to 2
-				if cl, ok := p.countingLoop(f); ok && cl.step == -1 && cl.n > 0 {
-					first, lastK = cl.first, cl.last
+				// Horner: the divisor k runs down from N-1 to 2. k is the loop variable, or a local of the
+				// body that is a linear function of it (i := 39 - j)
+				cl, ok := p.countingLoop(f)
+				if !ok || cl.n <= 0 {
+					return true
 				}
+				if cl.step == -1 {
+					first, lastK = cl.first, cl.last
+					return true
+				}
+				loopVar := p.exprKey(f.Init.(*ast.AssignStmt).Lhs[0])
+				var owner *ast.FuncDecl
+				for _, cand := range p.Funcs {
+					if cand.Body != nil && containsNode(cand.Body, f) {
+						owner = cand
+					}
+				}
+				ast.Inspect(f.Body, func(m ast.Node) bool {
+					lit, ok := m.(*ast.CompositeLit)
+					if !ok || len(lit.Elts) != 3 || first >= 0 || owner == nil {
+						return true
+					}
+					if p.constOf(lit.Elts[0]) != nil {
+						return true
+					}
+					arg := lit.Elts[0]
+					if conv, ok := ast.Unparen(arg).(*ast.CallExpr); ok && len(conv.Args) == 1 {
+						if tv, ok := p.Info.Types[conv.Fun]; ok && tv.IsType() {
+							arg = conv.Args[0]
+						}
+					}
+					terms, cst, ok := p.linForm(owner, arg, lit, 0)
+					if !ok || len(terms) != 1 {
+						return true
+					}
+					coef, has := terms[loopVar]
+					if !has || !coef.IsInt64() || !cst.IsInt64() {
+						return true
+					}
+					a, b := coef.Int64(), cst.Int64()
+					if a*cl.step == -1 {
+						first, lastK = a*cl.first+b, a*cl.last+b
+					}
+					return true
+				})
 				return true
 			})
 		}
